@@ -216,7 +216,7 @@ func c16Engine() *Engine {
 // ---- C17 ----
 
 type catState struct {
-	live, fresh, disk []string
+	live, fresh, disk    []string
 	liveYears, diskYears map[string][]string
 }
 
